@@ -125,3 +125,6 @@ Example C03_ctr_width_agree_sharp : ctr_block 64 iv_fe 2 <> ctr_block 128 iv_fe 
 Proof. vm_compute. discriminate. Qed.
 Example C03_ctr64_refuted_nonvacuous : ctr_block 64 ivff 1 = repeat xff 8 ++ z 8 /\ ctr_block 128 ivff 1 = z 16.
 Proof. split; vm_compute; reflexivity. Qed.
+
+Example C03_premises_satisfiable_nonvacuous : exists O, laws O.
+Proof. destruct C03_premises_satisfiable as (O & L). exists O. exact L. Qed.
